@@ -6,9 +6,10 @@
      R <h0> <call> ... | <schedule>   run one schedule -> "<observations>" or "REFUSED@<i>"
      W                                the witness schedules -> "W <name> <h0> <calls> | <schedule>"
      T                                "T <table_shape_ok> <lk_sched lk_next lk_hasp lk_set lk_clear lk_ntest lk_ncall>"
-   calls: SM:rrr SU:rrr IM J C K<n> G<n> F<n> D<n> H1 H0 ; schedule: letters c / w *)
+   calls: SM:rrr SU:rrr (r: 1 ok, 0 fails, 2 throws) IM J C K<n> G<n> F<n> D<n> H1 H0 P<r> ; schedule: letters c / w;
+   E also prints probe lines "B <prefix>C | <observations of the prefix>" (C = a client step the model refuses) *)
 let c0 = cfg_of_table lock_scopes
-let bools s = List.init (String.length s) (fun i -> s.[i] = '1')
+let bools s = List.init (String.length s) (fun i -> match s.[i] with '1' -> OOk | '2' -> OThrow | _ -> OFail)
 let call_of_string t =
   let n () = nat_of_int (int_of_string (String.sub t 1 (String.length t - 1))) in
   if String.length t > 3 && String.sub t 0 3 = "SM:" then CStartMaint (bools (String.sub t 3 (String.length t - 3)))
@@ -16,22 +17,25 @@ let call_of_string t =
   else match t with
     | "IM" -> CIsMaint | "J" -> CJoin | "C" -> CCreate | "H1" -> CSetHandler true | "H0" -> CSetHandler false
     | _ -> (match t.[0] with
+        | 'P' -> CPlan (List.hd (bools (String.sub t 1 1)))
         | 'K' -> CProcessKey (n ()) | 'G' -> CGetContext (n ()) | 'F' -> CFind (n ()) | 'D' -> CDestroy (n ())
         | _ -> failwith ("bad call " ^ t))
-let string_of_bools l = String.concat "" (List.map (fun b -> if b then "1" else "0") l)
+let string_of_bools l = String.concat "" (List.map (function OOk -> "1" | OFail -> "0" | OThrow -> "2") l)
 let string_of_call = function
   | CStartMaint rs -> "SM:" ^ string_of_bools rs | CSyncUser rs -> "SU:" ^ string_of_bools rs
   | CIsMaint -> "IM" | CJoin -> "J" | CCreate -> "C"
   | CProcessKey n -> "K" ^ string_of_int (int_of_nat n) | CGetContext n -> "G" ^ string_of_int (int_of_nat n)
   | CFind n -> "F" ^ string_of_int (int_of_nat n) | CDestroy n -> "D" ^ string_of_int (int_of_nat n)
   | CSetHandler b -> if b then "H1" else "H0"
+  | CPlan r -> "P" ^ string_of_bools [r]
 let rname = function
   | RStartMaint -> "SM" | RSyncUser -> "SU" | RIsMaint -> "IM" | RJoin -> "J" | RCreate -> "C" | RKey -> "K"
-  | RCtx -> "G" | RFind -> "F" | RDestroy -> "D" | RSetHandler -> "H"
+  | RCtx -> "G" | RFind -> "F" | RDestroy -> "D" | RSetHandler -> "H" | RPlan -> "P"
 let string_of_event = function
   | ERet (c, v) -> Some (Printf.sprintf "ret:%s:%d" (rname c) (int_of_nat v))
   | ENotify NStart -> Some "notify:start" | ENotify NSuccess -> Some "notify:success" | ENotify NFailure -> Some "notify:failure"
   | ESched t -> Some (Printf.sprintf "sched:%d" (int_of_nat t)) | EExec t -> Some (Printf.sprintf "exec:%d" (int_of_nat t))
+  | EHEnter g -> Some (Printf.sprintf "hin:%d" (int_of_nat g)) | EHLeave -> Some "hout"
   | EAccept -> Some "accept" | ESpawn -> Some "spawn" | EDone -> Some "done"
   | EBadCall -> None   (* an empty std::function being called is not observable by itself; the rethrow at join is *)
   | EJoinThrow -> Some "jointhrow"
@@ -59,6 +63,22 @@ let () =
              match run_sched s0 0 sch with
              | Ok s -> Printf.printf "S %s | %s\n" (string_of_sched sch) (obs s)
              | Error i -> Printf.printf "S %s | REFUSED@%d\n" (string_of_sched sch) i) scheds;
+         (* probes: prefixes after which the model refuses the client's set_notification_handler call because
+            the worker holds Service::mutex_ around the handler invocation; the harness tries the call anyway *)
+         let seen = Hashtbl.create 16 in
+         List.iter (fun sch ->
+             let rec walk s pre = function
+               | [] -> ()
+               | t :: rest ->
+                 (match s.cpcs, s.script, s.wpcs with
+                  | CIdle, CSetHandler _ :: _, Some (WN (_, (N3 | N4))) when macro c0 s Client = None ->
+                    let key = string_of_sched (List.rev pre) in
+                    if not (Hashtbl.mem seen key) then begin
+                      Hashtbl.add seen key ();
+                      Printf.printf "B %sC | %s\n" key (obs s) end
+                  | _ -> ());
+                 (match macro c0 s t with Some s' -> walk s' (t :: pre) rest | None -> ()) in
+             walk s0 [] sch) scheds;
          Printf.printf "END %d\n" (List.length scheds)
        | "R" :: h0 :: rest ->
          let (calls, sch) = split_bar rest in
